@@ -3,6 +3,7 @@ import json
 import os
 import vlib
 import lifecycle_common as L
+import lancerolife as LL
 
 LEVEL = "model_checking"
 PREFIXES = ("C11_",)
@@ -77,19 +78,23 @@ def run(ctx):
     ctx.notes["schedules"] = len(scens)
     L.validate(ctx, scens, PREFIXES)
     requests_matrix(ctx)
+    LL.stage(ctx, PREFIXES)
     return vlib.finish(ctx, LEVEL,
                        "schedule = TLC behaviour of Lifecycle.tla replayed on the real code (clients issuing every request kind) + request matrix case = (arrival time, request kind, argument class[, I/O failure]); distinct by hash; non-trivial = concurrent callers with a request answered / an invalid-argument, no-source or I/O-failure case",
                        ["as C10 for the replay part",
                         "request matrix: Triangle source wrapped by a recorder (handlers vs ProcessSegments, goroutine identity); SourceControl.Start's tail replicated for the wrapper",
                         "expected outcome per argument class is taken from the property statement (error for no source / invalid arguments / I/O failure; result otherwise); classes the statement does not decide are 'any'",
                         "watchdog 2.5 s per request; the fire-and-forget mode of the state-label request is excluded as the property says",
-                        "Lancero-only requests (mix with valid arguments, coupling on) are checked only for their error replies on a non-Lancero source"],
+                        "Lancero-only requests: on a non-Lancero source only their error replies; the mix-fraction request (the one request that does not go through the request rendezvous) on a real LanceroSource with a scripted card, at every arrival time of LanceroLifecycle.tla (before any start, running, racing Stop, after Stop, second run, silent card, malformed lists)"],
                        exhaustive=False)
 
 
 def replay(ctx, path):
     with open(path) as f:
         obj = json.load(f)
+    if "lancero_life" in obj.get("replay", {}):
+        LL.stage(ctx, PREFIXES, only=obj["replay"]["lancero_life"])
+        return vlib.finish(ctx, LEVEL, "replay of one recorded Lancero life-cycle history", [])
     if "request_case" in obj.get("replay", {}):
         requests_matrix(ctx)
         return vlib.finish(ctx, LEVEL, "re-run of the request matrix", [])
